@@ -47,6 +47,24 @@ Theorem C22_invariant : forall K vis tlimit y ev,
 Proof. exact know_step. Qed.
 Print Assumptions C22_invariant.
 
+(* lost live deliveries (fault action EvLose, part of the schedules of C22_converge / C22_invariant):
+   a lost delivery of a real change leaves a position that no longer matches, the next position check
+   ends the subscription, and the next delivered publication of the epoch is an offset gap that ends
+   it with insufficient state - never a silent divergence *)
+Theorem C22_lost_delivery_detected : forall fx K vis tlimit y w,
+  quiescent y -> top (apply_w (y_b y) w) = S (top (y_b y)) ->
+  let y1 := step fx K vis tlimit y (EvLose w) in
+  check_position (y_b y1) (y_l y1) = false /\
+  l_sub (y_l (step fx K vis tlimit y1 EvCheck)) = false.
+Proof. exact lost_delivery_detected. Qed.
+Print Assumptions C22_lost_delivery_detected.
+
+Theorem C22_gap_is_insufficient : forall vis l e p,
+  l_sub l = true -> l_epoch l = e -> S (l_pos l) < fst p ->
+  push vis l e p = (mkL false 0 0, None, true).
+Proof. exact gap_push_insufficient. Qed.
+Print Assumptions C22_gap_is_insufficient.
+
 (* never "recovered" with a missed change: a reply carrying recovered = true
    delivers exactly the visible changes after the position the client gave, up
    to the position it is given *)
